@@ -140,6 +140,17 @@ def marker_inputs():
         "CCO.[O-][Mn](=O)(=O)=O.[K+]>>CC(=O)O",
         "OO.CSC>>CS(C)=O",
         "OO.CSC>>CS(C)=O.O",
+        # hydrogen peroxide / hydroperoxides / peracids on either side (the '.OO' marker)
+        "CCOO>>CC.OO", "CCCl.N>>CCN.OO", "CC(C)OO>>CC(C)O", "CCCl.OOC(C)=O>>CCO", "CCN.OOC>>CCNO", "C=C.OO>>OCCO",
+        "c1ccccc1N.OO>>c1ccccc1N=O", "CS.OO>>CS(=O)(=O)O", "CC(=O)OO.CC=C>>CC1CO1.CC(=O)O", "CCBr.OO>>CCO",
+        "OO.CCI>>CCO", "CC(=O)Cl.OO>>CC(=O)OO",
+        # molecular hydrogen given by the user next to reducible groups (the '.[H]' marker)
+        "CC(=O)O.[H][H].[H][H]>>CCO", "CC(=O)Cl.[H][H].[H][H]>>CCO", "CC(=O)OC.[H][H].[H][H]>>CCO.CO",
+        "CCC(=O)O.[H][H].[H][H]>>CCCO", "O=C(O)c1ccccc1.[H][H].[H][H]>>OCc1ccccc1", "CC(N)=O.[H][H].[H][H]>>CCN",
+        "CCO.CC(=O)O>>CCOC(C)=O.[H][H]", "CCS.CCS>>CCSSCC.[H][H].O", "CC#N.[H][H].[H][H]>>CCN", "CC=O.[H][H].[H][H]>>CC",
+        "C=CC=O.[H][H].[H][H]>>CCCO", "CCCl.[H][H]>>CC", "[H][H].CC(=O)Cl.[H][H]>>CCO",
+        # alkali metals / hydride written as atoms
+        "CCCl.[Na]>>CC", "CCBr.[Li]CCCC>>CCCCCC", "CC(=O)C.[H-].[Na+]>>CC(O)C", "CCO.[K]>>CC[O-].[K+]",
     ]
 
 
